@@ -41,6 +41,7 @@ const (
 	kAddFT         = "AddFT"
 	kSubFT         = "SubFT"
 	kSetFT         = "SetFT"
+	kPrepare       = "Prepare"
 )
 
 // journal-entry family of an op kind (used in signatures: which kinds of calls sat in
@@ -50,7 +51,7 @@ var family = map[string]string{
 	kAddBalance: "balance", kSubBalance: "balance", kSetBalance: "balance", kTransfer: "balance",
 	kSuicide: "suicide", kCreate: "create", kAddLog: "log", kAddRefund: "refund", kSubRefund: "refund",
 	kALAddr: "accesslist", kALSlot: "accesslist", kTransient: "transient", kReadAll: "read",
-	kReadCommitted: "read-committed", kAddFT: "ft", kSubFT: "ft", kSetFT: "ft",
+	kReadCommitted: "read-committed", kAddFT: "ft", kSubFT: "ft", kSetFT: "ft", kPrepare: "prepare",
 }
 
 // familyOf: the FT mutators write a slot of the account's own storage (same journal entry
@@ -85,7 +86,7 @@ func (o Op) isQuery() bool { return o.K == kReadAll || o.K == kReadCommitted }
 
 func (o Op) usesAddr() bool {
 	switch o.K {
-	case kAddLog, kAddRefund, kSubRefund, kReadAll, kSnapshot, kRevert:
+	case kAddLog, kAddRefund, kSubRefund, kReadAll, kSnapshot, kRevert, kPrepare:
 		return false
 	}
 	return true
@@ -110,6 +111,8 @@ func (o Op) str(u *universe) string {
 		return fmt.Sprintf("Transfer(%s,%s,%d)", a(o.A), a(o.B), o.V)
 	case kAddLog:
 		return fmt.Sprintf("AddLog(L%d)", o.V)
+	case kPrepare:
+		return fmt.Sprintf("Prepare(tx%d,bh,%d)", o.V, o.V)
 	case kAddRefund, kSubRefund:
 		return fmt.Sprintf("%s(%d)", o.K, o.V)
 	case kALSlot:
@@ -181,6 +184,24 @@ func transKey(s int) common.Hash {
 }
 
 var emptyCodeHash = sha3.Sum256(nil)
+
+const nTx = 3 // transaction contexts tx1..tx3 (tx0 = before any Prepare)
+
+func txHash(i int) common.Hash {
+	var h common.Hash
+	if i != 0 {
+		h[0], h[31] = 0x7a, byte(i)
+	}
+	return h
+}
+
+func blockHashOf(tx int) common.Hash {
+	var h common.Hash
+	if tx != 0 {
+		h[0], h[31] = 0xb1, 0x0c
+	}
+	return h
+}
 
 func logVal(u *universe, v int) *types.Log {
 	var t common.Hash
@@ -265,6 +286,8 @@ func (x *impl) exec(u *universe, o Op, ft bool) {
 		st.CreateAccount(u.addr[o.A])
 	case kAddLog:
 		st.AddLog(logVal(u, o.V))
+	case kPrepare:
+		st.Prepare(txHash(o.V), blockHashOf(o.V), o.V)
 	case kAddRefund:
 		st.AddRefund(uint64(o.V))
 	case kSubRefund:
@@ -324,7 +347,10 @@ func obsKeys(u *universe, ft bool) []string {
 	for i := range u.addr {
 		out = append(out, "Empty("+u.short[i]+")")
 	}
-	out = append(out, "GetRefund()", "GetLogs()")
+	out = append(out, "GetRefund()")
+	for t := 0; t <= nTx; t++ {
+		out = append(out, fmt.Sprintf("GetLogs(tx%d)", t))
+	}
 	for i := range u.addr {
 		n := u.short[i]
 		out = append(out, "AddressInAccessList("+n+")", "SlotInAccessList("+n+",s1)", "SlotInAccessList("+n+",s2)", "GetTransientState("+n+",k1)")
@@ -332,8 +358,9 @@ func obsKeys(u *universe, ft bool) []string {
 	return out
 }
 
-func logStr(l *types.Log, index uint, txIndex uint) string {
-	return fmt.Sprintf("%x/%x/%x/i%d/t%d", l.Address[:], l.Topics, l.Data, index, txIndex)
+// logStr: payload and every field the AccountDB stamps on a log itself.
+func logStr(l *types.Log, index uint, txIndex uint, txh, bh common.Hash) string {
+	return fmt.Sprintf("%x/%x/%x/index%d/txindex%d/tx%x/block%x", l.Address[:], l.Topics, l.Data, index, txIndex, txh[:2], bh[:2])
 }
 
 // observe asks every query of the statement over the closed universe (answers in obsKeys order).
@@ -352,11 +379,13 @@ func observe(st *account.AccountDB, u *universe, ft bool) []string {
 		out = append(out, bstr(st.Empty(a)))
 	}
 	out = append(out, strconv.FormatUint(st.GetRefund(), 10))
-	var lg []string
-	for _, l := range st.GetLogs(common.Hash{}) {
-		lg = append(lg, logStr(l, l.Index, l.TxIndex))
+	for t := 0; t <= nTx; t++ {
+		var lg []string
+		for _, l := range st.GetLogs(txHash(t)) {
+			lg = append(lg, logStr(l, l.Index, l.TxIndex, l.TxHash, l.BlockHash))
+		}
+		out = append(out, strings.Join(lg, ";"))
 	}
-	out = append(out, strings.Join(lg, ";"))
 	for _, a := range u.addr {
 		out = append(out, bstr(st.AddressInAccessList(a)))
 		for s := 1; s <= 2; s++ {
@@ -365,6 +394,78 @@ func observe(st *account.AccountDB, u *universe, ft bool) []string {
 		}
 		t := st.GetTransientState(a, transKey(1))
 		out = append(out, hexs(t[:]))
+	}
+	return out
+}
+
+// ---- probes: what a LATER call gets ---------------------------------------------------------
+//
+// After the history (and the observation) one follow-up call is made on every block-wide
+// counter / accumulator the AccountDB keeps, and what that call yields is observed: the
+// refund counter after one more AddRefund, the access list after one more AddSlotToAccessList
+// per address, transient storage after one more SetTransientState per address, and the
+// fields stamped on one more log emitted in the current transaction and in every other
+// transaction context (Prepare + AddLog).  Probes never touch account objects.
+
+const probeLog = 9
+
+func probeKeys(u *universe) []string {
+	out := []string{"NextRefund()"}
+	for i := range u.addr {
+		out = append(out, "NextAccessList("+u.short[i]+")")
+	}
+	for i := range u.addr {
+		out = append(out, "NextTransient("+u.short[i]+")")
+	}
+	out = append(out, "NextLog(current-tx)")
+	for t := 1; t <= nTx; t++ {
+		out = append(out, fmt.Sprintf("NextLog(tx%d)", t))
+	}
+	return out
+}
+
+func probe(st *account.AccountDB, u *universe) []string {
+	var out []string
+	st.AddRefund(1)
+	out = append(out, strconv.FormatUint(st.GetRefund(), 10))
+	for _, a := range u.addr {
+		st.AddSlotToAccessList(a, slotHash(2))
+		_, s1 := st.SlotInAccessList(a, slotHash(1))
+		ap, s2 := st.SlotInAccessList(a, slotHash(2))
+		out = append(out, bstr(ap)+" "+bstr(s1)+" "+bstr(s2))
+	}
+	for _, a := range u.addr {
+		st.SetTransientState(a, transKey(2), transVal(1))
+		t1, t2 := st.GetTransientState(a, transKey(1)), st.GetTransientState(a, transKey(2))
+		out = append(out, hexs(t1[:])+" "+hexs(t2[:]))
+	}
+	l := logVal(u, probeLog)
+	st.AddLog(l)
+	out = append(out, logStr(l, l.Index, l.TxIndex, l.TxHash, l.BlockHash))
+	for t := 1; t <= nTx; t++ {
+		st.Prepare(txHash(t), blockHashOf(t), t)
+		l := logVal(u, probeLog)
+		st.AddLog(l)
+		out = append(out, logStr(l, l.Index, l.TxIndex, l.TxHash, l.BlockHash))
+	}
+	return out
+}
+
+func (m *model) probe(u *universe) []string {
+	out := []string{strconv.FormatUint(m.Refund+1, 10)}
+	for i := range u.addr {
+		out = append(out, "true "+bstr(m.ALAddr[i] && m.ALSlot[[2]int{i, 1}])+" true")
+	}
+	for i := range u.addr {
+		t1, t2 := transVal(m.Trans[[2]int{i, 1}]), transVal(1)
+		out = append(out, hexs(t1[:])+" "+hexs(t2[:]))
+	}
+	n := m.LogSize
+	l := logVal(u, probeLog)
+	out = append(out, logStr(l, n, uint(m.CurTx), txHash(m.CurTx), blockHashOf(m.CurTx)))
+	for t := 1; t <= nTx; t++ {
+		n++
+		out = append(out, logStr(l, n, uint(t), txHash(t), blockHashOf(t)))
 	}
 	return out
 }
@@ -408,11 +509,15 @@ func (m *model) observe(u *universe, ft bool) []string {
 		out = append(out, undef)
 	}
 	out = append(out, strconv.FormatUint(m.Refund, 10))
-	var lg []string
-	for idx, v := range m.Logs {
-		lg = append(lg, logStr(logVal(u, v), uint(idx), 0))
+	for t := 0; t <= nTx; t++ {
+		var lg []string
+		for _, l := range m.Logs {
+			if l.Tx == t {
+				lg = append(lg, logStr(logVal(u, l.V), l.Index, uint(l.Tx), txHash(l.Tx), blockHashOf(l.Tx)))
+			}
+		}
+		out = append(out, strings.Join(lg, ";"))
 	}
-	out = append(out, strings.Join(lg, ";"))
 	for i := range u.addr {
 		out = append(out, bstr(m.ALAddr[i]))
 		for s := 1; s <= 2; s++ {
